@@ -58,6 +58,9 @@ def items(tier, seed):
         skA = [s for s in skel.skeletons(2, 3, 4, 1, outputs="unordered") + skel.skeletons(3, 3, 4, 1, max_positions=7, outputs="unordered") + skel.skeletons(4, 2, 4, 1, max_positions=7, outputs="unordered")[::3] if ordinary(s[0])]
         skB = [s for s in skel.skeletons(3, 2, 4, 1, outputs="unordered") + skel.skeletons(4, 2, 4, 1, max_positions=7, outputs="unordered")[::6] if ordinary(s[0])]
         skC = [s for s in skel.skeletons(3, 2, 4, 1, outputs="unordered") + skel.skeletons(4, 2, 4, 1, max_positions=7, outputs="unordered")[::4] if ordinary(s[0]) and skel.is_connected(s[0])] + FIXED4
+    # larger ordinary networks for the monotonicity clause: a narrow strip swept from one end to the other
+    for W, L in (((4, 5),) if tier == "quick" else ((4, 5), (4, 6), (3, 8), (4, 8))):
+        its.append({"kind": "S", "W": W, "L": L, "tier": tier})
     for kind, sk, ch in (("A", skA, 2), ("B", skB, 2), ("C", skC, 3)):
         for i in range(0, len(sk), ch):
             its.append({"kind": kind, "skeletons": [[list(a), b] for a, b in sk[i : i + ch]], "tier": tier, "k": i})
@@ -243,9 +246,71 @@ def run_C(item, rec):
     rec.validated += 1
 
 
+def strip_network(W, L, d=2):
+    """W x L square lattice without output, all bonds of size d; swept tensor by tensor"""
+    inputs, size = [], {}
+    names = {}
+
+    def lab(key):
+        if key not in names:
+            names[key] = chr(0x100 + len(names))
+            size[names[key]] = d
+        return names[key]
+
+    for x in range(L):
+        for y in range(W):
+            t = []
+            if x > 0:
+                t.append(lab(("h", x - 1, y)))
+            if x < L - 1:
+                t.append(lab(("h", x, y)))
+            if y > 0:
+                t.append(lab(("v", x, y - 1)))
+            if y < W - 1:
+                t.append(lab(("v", x, y)))
+            inputs.append("".join(t))
+    n = len(inputs)
+    ssa = [(0, 1)] + [(n + k - 2, k) for k in range(2, n)]
+    return tuple(inputs), "", size, ssa
+
+
+def strip_stats(W, L, chi, order, late):
+    from cotengra.core import ContractionTree
+
+    inputs, output, size, ssa = strip_network(W, L)
+    tree = ContractionTree.from_path(inputs, output, size, ssa_path=ssa)
+    capped = tree.compressed_contract_stats(chi=chi, order=order, compress_late=late)
+    free = tree.compressed_contract_stats(chi=float("inf"), order=order, compress_late=late)
+    return capped, free
+
+
+def run_S(item, rec):
+    W, L = item["W"], item["L"]
+    case = dict(kind="S", W=W, L=L)
+
+    def harness(ctx):
+        chi = symx.sym_int("chi", 1, 8)
+        order = ("dfs", "surface_order")[symx.choose("order", 2)]
+        late = bool(symx.choose("compress_late", 2))
+        cur = dict(chi=chi, order=order, late=late)
+
+        def viol(m):
+            return dict(case=dict(case, order=order, late=late), chi=symx.eval_model(m, chi), size={}, signature=["C20S", W, L, order, late])
+
+        with rec.guarded(ctx, "capped size/peak/write <= uncapped (strip)", viol):
+            capped, free = strip_stats(W, L, chi, order, late)
+        bads = [term(capped.max_size) > term(free.max_size), term(capped.peak_size) > term(free.peak_size), term(capped.write) > term(free.write)]
+        rec.refute(ctx, z3.Or(bads), "capped size/peak/write <= uncapped (strip)", viol)
+
+    out = symx.explore(harness, max_paths=4000, deadline_s=(60 if item["tier"] == "quick" else 400), timeout_ms=4000)
+    rec.add_explore(out)
+    rec.sample(dict(part="S", strip=f"{W}x{L}, d=2, swept", chi="symbolic in [1,8]", order="solver-chosen", compress_late="solver-chosen", paths=out.paths))
+    rec.validated += 1
+
+
 def run_item(item, rec):
     warnings.simplefilter("ignore")
-    {"A": run_A, "B": run_B, "C": run_C}[item["kind"]](item, rec)
+    {"A": run_A, "B": run_B, "C": run_C, "S": run_S}[item["kind"]](item, rec)
 
 
 def replay(v):
@@ -253,6 +318,13 @@ def replay(v):
     from cotengra.core import ContractionTree
 
     case = v["case"]
+    if case["kind"] == "S":
+        chi = int(v["chi"])
+        capped, free = strip_stats(case["W"], case["L"], chi, case["order"], case["late"])
+        if capped.max_size > free.max_size or capped.peak_size > free.peak_size or capped.write > free.write:
+            return True, (f"{case['W']}x{case['L']} strip (d=2, swept), order={case['order']}, compress_late={case['late']}, chi={chi}: capped (S={capped.max_size},P={capped.peak_size},W={capped.write}) "
+                          f"exceeds uncapped (S={free.max_size},P={free.peak_size},W={free.write})")
+        return False, "monotone at the model point"
     inputs, output = tuple(case["inputs"]), case["output"]
     n = len(inputs)
     if case["kind"] == "C":
